@@ -13,7 +13,7 @@ import (
 func init() { Registry["C10"] = c10 }
 
 func c10(p *core.Prog, r *core.Report) {
-	r.Explain = "Decides: (R1) the response writer is single-pass: the argument-writer helper proceeds only when the writer's state equals the expected input state, stores the output state only after the fragment writer accepted the argument, every call site moves exactly one step forward (arg1->arg2->arg3->complete), and the inbound response's SendSystemError stores the Complete state before sending and returns early when the writer has already failed; (R2) writes after expiry or failure are refused: building and flushing a fragment pass through the exchange's error check before the connection's send queue is touched; (R3) the relay swallows late frames: no path from the item lookup to a forward avoids the tombstone / timed-out test, the arms of that test cannot reach the forward, and the timeout path sends its single error frame only after winning the tombstone transition and only on the originating side; (R4) frames carry the id of the request they answer: response fragments are stamped with the exchange's id, error frames with the exchange's / request frame's / relay item's id. An error frame sent while admitting a call req is terminal (phi-sensitive path search); a late-frame test living in a helper is decided from the helper's extracted truth table. A helper that sent an error frame reports the call handled and handleCallReq stops on it; every queue / pool operation of the response writer is behind the exchange's error check. The writer closes the socket on a graceful stop only when the send queue is empty; an error frame is handed to the connection before anything that can complete its last pending work (census over every SendSystemError site). relayTimer.Stop answers true only with time.Timer.Stop's result or under the stopped flag; ArgWriteHelper closes the argument writer only after a successful write. Both exchange sets are stopped on a connection / protocol error (shared with C05-R2); the skip-list dispatcher hands a call to exactly one handler."
+	r.Explain = "Decides: (R1) the response writer is single-pass: the argument-writer helper proceeds only when the writer's state equals the expected input state, stores the output state only after the fragment writer accepted the argument, every call site moves exactly one step forward (arg1->arg2->arg3->complete), and the inbound response's SendSystemError stores the Complete state before sending and returns early when the writer has already failed; (R2) writes after expiry or failure are refused: building and flushing a fragment pass through the exchange's error check before the connection's send queue is touched; (R3) the relay swallows late frames: no path from the item lookup to a forward avoids the tombstone / timed-out test, the arms of that test cannot reach the forward, and the timeout path sends its single error frame only after winning the tombstone transition and only on the originating side; (R4) frames carry the id of the request they answer: response fragments are stamped with the exchange's id, error frames with the exchange's / request frame's / relay item's id. An error frame sent while admitting a call req is terminal (phi-sensitive path search); a late-frame test living in a helper is decided from the helper's extracted truth table. A helper that sent an error frame reports the call handled and handleCallReq stops on it; every queue / pool operation of the response writer is behind the exchange's error check. The writer closes the socket on a graceful stop only when the send queue is empty; an error frame is handed to the connection before anything that can complete its last pending work (census over every SendSystemError site). relayTimer.Stop answers true only with time.Timer.Stop's result or under the stopped flag; ArgWriteHelper closes the argument writer only after a successful write. Both exchange sets are stopped on a connection / protocol error (shared with C05-R2); the skip-list dispatcher hands a call to exactly one handler. The inbound response's error frame is sent only while the response writer's own sticky error is nil."
 	r.NotDecided = "wire-level sequences under every race (needs an observer); behaviour of handlers that both complete a response and send a system error (outside the quantifier)."
 	r.Rule("C10-R1", "E1 enumset + E6", 5, "response writer is single-pass")
 	r.Rule("C10-R2", "E6 paths", 2, "no frame is built or queued after the exchange failed or expired")
